@@ -304,7 +304,7 @@ pub fn run(tier: &str, seed: u64) -> i32 {
         let n3 = super::scale(tier, 16, 160);
         rep.outcome.merge(crate::runner::search_len(&sub3, seed, n3, 300, 700, &|b, col| dispatch(&sub3, b, col)));
     }
-    for (c, f) in [("odd-run-of-allocate", 0.05), ("allocate-interleaved-with-gates", 0.05), ("allocation-in-phase2", 0.03), ("open-half-gate-at-switch-then-phase2-allocation", 0.01), ("missing-assignment", 0.01), ("long-sequence(>100 calls)", 0.005), ("single-allocation-beyond-2^16", 0.0005)] {
+    for (c, f) in [("odd-run-of-allocate", 0.05), ("allocate-interleaved-with-gates", 0.05), ("allocation-in-phase2", 0.03), ("open-half-gate-at-switch-then-phase2-allocation", 0.01), ("missing-assignment", 0.01), ("long-sequence(>100 calls)", 0.005), ("single-allocation-beyond-2^16", 0.0002)] {
         rep.required_classes.push((c.to_string(), f));
     }
     rep.finish()
